@@ -219,6 +219,34 @@ fn exact_grid(args: &Args, rep: &mut Report) {
             }
         }
     }
+    // time-shape grid: pairs of boundary-valued spans under a few day selectors, 2018..2042
+    // (thorough: 1990..2050), every day evaluated
+    let shapes = stream::grid_time_shapes(args.thorough(), args.seed);
+    let ymd = |y: i32, m: u32, d: u32| NaiveDate::from_ymd_opt(y, m, d).unwrap();
+    let (d0, d1) = if args.thorough() { (ymd(1990, 1, 1), ymd(2050, 12, 31)) } else { (ymd(2018, 1, 1), ymd(2042, 12, 31)) };
+    for (i, text) in shapes.iter().enumerate() {
+        if (i as u64) % args.of.max(1) != args.worker {
+            continue;
+        }
+        let Some(oh) = build(text, &HolSpec::None) else {
+            rep.count("exact_grid_skipped_parser_rejects");
+            continue;
+        };
+        rep.evaluations += 1;
+        rep.begin(&format!("time-shape grid {text} | {d0} .. {d1}"));
+        match stream::check_exact(&oh, d0, d1, &mut Rng::new(args.seed, 0x71e5, i as u64), 0, &mut st) {
+            Ok(()) => {
+                rep.count("time_shape_grid_windows_passed");
+                rep.nontrivial(crate::rng::hash64(&format!("exact|{text}|{d0}")));
+            }
+            Err(msg) => {
+                rep.violation("interval_stream_exact", format!("{text:?} [none]: {msg}"), json!({"expr": text, "holidays": "none", "exact_from": d0.to_string(), "exact_to": d1.to_string()}), None);
+                if rep.full() {
+                    return;
+                }
+            }
+        }
+    }
     rep.add("exact_grid_days_evaluated", st.days_evaluated);
     rep.add("exact_grid_intervals_compared", st.intervals_compared);
 }
